@@ -107,11 +107,12 @@ package agessh
 
 //@ func (*EncryptedSSHIdentity).Unwrap(i, stanzas) (fileKey, err)
 //@   requires i.pubKey != nil && typeimpl(i.pubKey, "golang.org/x/crypto/ssh.CryptoPublicKey") && (forall j in 0..len(stanzas) :: stanzas[j] != nil)
-//@   loop 1 invariant -1 <= rangeindex && rangeindex < len(stanzas) && !match && $ppcalls == old($ppcalls) && i.decrypted == old(i.decrypted) && old(i.decrypted) == nil && i.pubKey == old(i.pubKey)
+//@   loop 1 invariant -1 <= rangeindex && rangeindex < len(stanzas) && !match && $ppcalls == old($ppcalls) && i.decrypted == old(i.decrypted) && i.pubKey == old(i.pubKey)
 //@   loop 1 invariant#nomatch forall j in 0..rangeindex+1 :: !(stanzas[j].Type == keytype(id(i.pubKey)) && len(stanzas[j].Args) >= 1 && stanzas[j].Args[0] == fpof(i.pubKey))   [C04 C19]
 //@   loop 1 decreases len(stanzas) - rangeindex
 //@   ensures#noprompt (old(i.decrypted) == nil && old(forall j in 0..len(stanzas) :: !(stanzas[j].Type == keytype(id(i.pubKey)) && len(stanzas[j].Args) >= 1 && stanzas[j].Args[0] == fpof(i.pubKey)))) ==> $ppcalls == old($ppcalls) && fileKey == nil && err != nil   [C04 C19]
 //@   ensures#prompts (old(i.decrypted) == nil && old(exists j in 0..len(stanzas) :: (stanzas[j].Type == keytype(id(i.pubKey)) && len(stanzas[j].Args) >= 1 && stanzas[j].Args[0] == fpof(i.pubKey) && (forall k in 0..j :: !(stanzas[k].Type == keytype(id(i.pubKey)) && len(stanzas[k].Args) < 1))))) ==> $ppcalls == old($ppcalls) + 1   [C01 C05 C19]
+//@   ensures#histfree old(forall j in 0..len(stanzas) :: (stanzas[j].Type != keytype(id(i.pubKey)) || (len(stanzas[j].Args) >= 1 && stanzas[j].Args[0] != fpof(i.pubKey)))) ==> fileKey == nil && err == age.ErrIncorrectIdentity && $ppcalls == old($ppcalls) && i.decrypted == old(i.decrypted)   [C04 C19]
 //@   ensures#once $ppcalls <= old($ppcalls) + 1                                                                   [C19]
 //@   ensures#cached old(i.decrypted) != nil ==> $ppcalls == old($ppcalls) && i.decrypted == old(i.decrypted)       [C01 C19]
 //@   ensures#validated i.decrypted != old(i.decrypted) ==> old(i.decrypted) == nil && $pkeqn == old($pkeqn) + 1 && $pkeqr && $ppcalls == old($ppcalls) + 1   [C04 C19]
